@@ -250,10 +250,24 @@ package encoding
 //@   ensures[the_next_value_of_the_stream] (d.values != nil && old(d.values.err) == nil && old(d.values.br.err) == nil && xorDecValid(contents(d.values.br.buf.buf), old(bit.rpos(d.values.br)), old(d.values.first), old(d.values.leading), old(d.values.trailing)) && old(bit.rpos(d.values.br)) + xorDecLen(contents(d.values.br.buf.buf), old(bit.rpos(d.values.br)), old(d.values.first), old(d.values.leading), old(d.values.trailing)) <= d.values.br.buf.length * 8) ==> result == xorDecVal(contents(d.values.br.buf.buf), old(bit.rpos(d.values.br)), old(d.values.first), old(d.values.val), old(d.values.leading), old(d.values.trailing))
 //@   ensures[no_decoder_no_value] d.values == nil ==> result == 0
 //@ end
+//@ # slot-addressed read (C14: "slot-addressed reads of a block agree with sequential reads"): GetValue(slot) for the next
+//@ # slot reads the mask bit and then exactly the value the sequential XOR decoder function yields at that position
+//@ func TSDDecoder.GetValue
+//@   prop C14
+//@   opaque tok bitsval
+//@   requires d.buf != nil && tsdDecWired(d) && bit.rSane(d.reader) && xdOK(d.values)
+//@   modifies d.idx, d.err, d.reader.b, d.reader.count, d.reader.err, d.reader.buf.index, d.values.err, d.values.first, d.values.val, d.values.leading, d.values.trailing
+//@   ensures[only_the_next_slot_can_be_read] (slot < d.startTime || slot > d.endTime || slot != old(d.idx) + d.startTime) ==> !result1
+//@   ensures[an_empty_slot_has_no_value] (slot >= d.startTime && slot <= d.endTime && slot == old(d.idx) + d.startTime && old(d.reader.err) == nil && old(bit.rpos(d.reader)) < d.reader.buf.length * 8 && !old(bit.rbitAt(d.reader, bit.rpos(d.reader)))) ==> !result1
+//@   ensures[a_filled_slot_yields_the_value_of_the_sequential_decoder] (slot >= d.startTime && slot <= d.endTime && slot == old(d.idx) + d.startTime && old(d.reader.err) == nil && old(d.values.err) == nil && old(bit.rpos(d.reader)) < d.buf.length * 8 && old(bit.rbitAt(d.reader, bit.rpos(d.reader))) && xorDecValid(contents(d.buf.buf), old(bit.rpos(d.reader)) + 1, old(d.values.first), old(d.values.leading), old(d.values.trailing)) && old(bit.rpos(d.reader)) + 1 + xorDecLen(contents(d.buf.buf), old(bit.rpos(d.reader)) + 1, old(d.values.first), old(d.values.leading), old(d.values.trailing)) <= d.buf.length * 8) ==> (result1 && result0 == math.f64frombits(xorDecVal(contents(d.buf.buf), old(bit.rpos(d.reader)) + 1, old(d.values.first), old(d.values.val), old(d.values.leading), old(d.values.trailing))))
+//@ end
 //@ func TSDDecoder.HasValueWithSlot
 //@   prop C14
 //@   requires d.reader != nil ==> bit.rSane(d.reader)
 //@   modifies d.idx, d.err, d.reader.b, d.reader.count, d.reader.err, d.reader.buf.index
 //@   ensures[only_the_next_slot_is_read] (slot < d.startTime || slot > d.endTime || slot != old(d.idx) + d.startTime) ==> (!result && d.idx == old(d.idx) && (d.reader != nil ==> bit.rpos(d.reader) == old(bit.rpos(d.reader))))
 //@   ensures[next_slot_reads_one_mask_bit] (slot >= d.startTime && slot <= d.endTime && slot == old(d.idx) + d.startTime && d.reader != nil && old(d.reader.err) == nil && old(bit.rpos(d.reader)) < d.reader.buf.length * 8) ==> (d.idx == old(d.idx) + 1 && result == old(bit.rbitAt(d.reader, bit.rpos(d.reader))) && bit.rpos(d.reader) == old(bit.rpos(d.reader)) + 1)
+//@   ensures[the_reader_stays_usable_after_the_mask_bit] (slot >= d.startTime && slot <= d.endTime && slot == old(d.idx) + d.startTime && d.reader != nil && old(d.reader.err) == nil && old(bit.rpos(d.reader)) < d.reader.buf.length * 8) ==> (bit.rSane(d.reader) && d.reader.count < 8 && d.reader.err == nil)
+//@   ensures[a_set_mask_bit_was_really_read] result ==> (d.reader != nil && bit.rSane(d.reader) && d.reader.count < 8 && d.reader.err == nil && bit.rpos(d.reader) == old(bit.rpos(d.reader)) + 1 && old(bit.rbitAt(d.reader, bit.rpos(d.reader))) && d.idx == old(d.idx) + 1)
+//@   ensures[objects_kept] d.reader == old(d.reader) && d.values == old(d.values) && d.buf == old(d.buf) && (d.reader != nil ==> (d.reader.buf == old(d.reader.buf) && d.reader.buf.buf == old(d.reader.buf.buf) && d.reader.buf.length == old(d.reader.buf.length)))
 //@ end
